@@ -757,7 +757,7 @@ fn newboxed<H: Header>(ctx: &mut Ctx, header: H, slices: &[&[u8]], size_off: usi
             let sov = size_of_val(t);
             let all = unsafe { core::slice::from_raw_parts(raw(t), sov) };
             let total = (raw32(raw(t), size_off) as usize).clamp(hs, sov);
-            let head = format!("VAL sov={} hdr={} content={}", sov, hexs(&all[..hs]), hexs(&all[hs..total]));
+            let head = format!("VAL sov={} plen={} hdr={} content={}", sov, t.payload().len(), hexs(&all[..hs]), hexs(&all[hs..total]));
             alloc_track::start();
             drop(b);
             let (_, deallocs) = alloc_track::stop();
